@@ -155,6 +155,7 @@ def _dedupe(records):
 
 
 def run(ctx):
+    ctx.repro_attempts = 6   # order- and schedule-dependent misbehaviour is retried in fresh processes
     quick = ctx.tier == "quick"
     rng = random.Random(ctx.seed)
     ctx.assumptions += [
